@@ -287,6 +287,10 @@ def run(ctx, rep) -> None:
     rep.attempt("convergence_flag", convergence_flag, ctx, rep, "C10.2")
     rep.attempt("higher_order_guards", higher_order_guards, ctx, rep, "C10.3")
     rep.attempt("ridge_discipline", ridge_discipline, ctx, rep, "C10.4")
+    from .common import tensor_arguments_are_inputs
+
+    rep.rule("C10.9", "the solvers are functions of their tensor arguments: no in-place operation lands in the caller's matrix")
+    rep.attempt("tensor_arguments_are_inputs", tensor_arguments_are_inputs, ctx, rep, "C10.9")
     from .arith import newton_arithmetic
     from .c03 import exact_diagonal_flag
 
